@@ -766,13 +766,38 @@ func c19Readers(iters int, seed int64, repo string) int {
 
 // ------------------------------------------------------------------------------- mode errsets
 
-const c19NErrSets = 13
+const c19NErrSets = 17
 
 // c19ErrSet: a module set of its own (own file names, own line numbers) whose Process reports errors.
 // The sets share the TEXT of the offending constructs -- whatever the library remembers about such a construct
 // must not leak from one set into another.
 func c19ErrSet(k int) c19Set {
 	K := strconv.Itoa(k)
+	if k >= 13 {
+		// 13, 14: plain lists and leaf-lists WITHOUT any bound or order statement (their dump shows the default
+		// bounds and the type default of the leaf-list);  15, 16: the same shapes, and a second module that
+		// deviates the bounds (add / add then replace / delete).  Error free: the whole dump is compared.
+		// What one set does to its lists must not reach the lists of another set.
+		base := "module plain-" + K + " {\n  namespace \"urn:plain:" + K + "\";\n  prefix p" + K + ";\n" +
+			"  typedef colour { type string; default \"blue\"; }\n" +
+			"  list item { key \"id\"; leaf id { type string; } leaf-list notes { type string; } }\n" +
+			"  leaf-list colours { type colour; }\n" +
+			"  container box { list inner { key \"k\"; leaf k { type uint8; } } leaf-list sizes { type uint16; } }\n" +
+			"  list bounded { key \"b\"; min-elements 2; max-elements 9; leaf b { type string; } }\n}\n"
+		set := c19Set{label: "plain-" + K, srcs: []c19Src{{"plain-" + K + ".yang", base}}}
+		if k >= 15 {
+			dev := "module plain-dev-" + K + " {\n  namespace \"urn:plain-dev:" + K + "\";\n  prefix d" + K + ";\n  import plain-" + K + " { prefix p; }\n" +
+				"  deviation /p:item { deviate add { max-elements " + strconv.Itoa(k-11) + "; } }\n" +
+				"  deviation /p:colours { deviate add { min-elements 1; } }\n" +
+				"  deviation /p:box/p:sizes { deviate add { min-elements 2; max-elements 3; } }\n"
+			if k == 16 {
+				dev += "  deviation /p:box/p:inner { deviate add { min-elements 1; } }\n" +
+					"  deviation /p:bounded { deviate replace { min-elements 3; } }\n"
+			}
+			set.srcs = append(set.srcs, c19Src{"plain-dev-" + K + ".yang", dev + "}\n"})
+		}
+		return set
+	}
 	if k >= 7 {
 		// 7..9: the load is REJECTED while a statement is being built (unknown substatement after `type`), at
 		// nesting depth 0..2;  10..12: a leaf WITHOUT its required type at depth 0..2 (must be rejected too).
@@ -837,7 +862,7 @@ func c19ErrSets(iters int, seed int64, repo string) int {
 			withErrors++
 		}
 	}
-	if withErrors < c19NErrSets-1 {
+	if withErrors < 12 {
 		fmt.Printf("DIFF mode=errsets seed=%d only %d of the sets report errors: the generator lost its point\n", seed, withErrors)
 		return 3
 	}
@@ -846,8 +871,9 @@ func c19ErrSets(iters int, seed int64, repo string) int {
 	var diffs []string
 	report := func(phase string, it, g, k int, got string) {
 		mu.Lock()
+		gl, wl := c19FirstDiffLine(got, want[k])
 		diffs = append(diffs, fmt.Sprintf("DIFF mode=errsets seed=%d phase=%s iteration=%d goroutine=%d set=%s: got %.300q, a fresh process handling this set alone gives %.300q",
-			seed, phase, it, g, sets[k].label, got, want[k]))
+			seed, phase, it, g, sets[k].label, gl, wl))
 		mu.Unlock()
 	}
 	runs := 0
@@ -883,4 +909,22 @@ func c19ErrSets(iters int, seed int64, repo string) int {
 		runs += c19N
 	}
 	return c19Finish("errsets", iters, seed, runs, c19NErrSets, diffs)
+}
+
+// c19FirstDiffLine returns the first line in which two dumps differ (the whole text when they have one line).
+func c19FirstDiffLine(a, b string) (string, string) {
+	la, lb := strings.Split(a, "\n"), strings.Split(b, "\n")
+	for i := 0; i < len(la) || i < len(lb); i++ {
+		x, y := "<end>", "<end>"
+		if i < len(la) {
+			x = la[i]
+		}
+		if i < len(lb) {
+			y = lb[i]
+		}
+		if x != y {
+			return strings.TrimSpace(x), strings.TrimSpace(y)
+		}
+	}
+	return a, b
 }
